@@ -25,7 +25,7 @@ func TestVerifC13Flags(t *testing.T) {
 	part := "flags"
 	r := ev.Begin("C13", part)
 	defer r.End(t)
-	r.Rule = "all 4096 combinations of the IFA_F_* address flag bits (0x001..0x800) x {valid forever, finite valid lifetime} x 2 addresses through the real AddressesByIndex decoding over an injected rtnetlink reply; oracle: Temporary, Tentative, Deprecated, ManageTemporaryAddresses, StablePrivacy = exactly their kernel bit, ValidForever = (valid == 2^32-1), address and prefix length preserved; non-trivial = every case"
+	r.Rule = "all 4096 combinations of the IFA_F_* address flag bits (0x001..0x800) x {valid forever, finite valid lifetime} x 2 addresses through the real AddressesByIndex decoding over an injected rtnetlink reply, and all 4096 ordered pairs of (5 flag bits, valid forever/finite) for two addresses in one reply; oracle: Temporary, Tentative, Deprecated, ManageTemporaryAddresses, StablePrivacy = exactly their kernel bit, ValidForever = (valid == 2^32-1), address and prefix length preserved; non-trivial = every case"
 	for flags := uint32(0); flags < 1<<12; flags++ {
 		for _, valid := range []uint32{math.MaxUint32, 3600} {
 			r.Case(fmt.Sprintf("flags=%#x valid=%d", flags, valid), true)
@@ -66,6 +66,64 @@ func TestVerifC13Flags(t *testing.T) {
 				chk([]string{"C14"}, "stable-privacy", ip.StablePrivacy, unix.IFA_F_STABLE_PRIVACY)
 				if ip.ValidForever != (valid == math.MaxUint32) {
 					r.Violation("C14:flag-mapping:valid-forever", fmt.Sprintf("valid=%d: ValidForever=%t", valid, ip.ValidForever), nil)
+				}
+			}
+		}
+	}
+	// Each address of one dump is decoded on its own: all ordered pairs of (flag set over
+	// the five bits the wildcards look at, valid forever / finite) for two addresses in
+	// one reply; every attribute of each address is its own bits, whatever the other says.
+	bits := []uint32{unix.IFA_F_TEMPORARY, unix.IFA_F_TENTATIVE, unix.IFA_F_DEPRECATED, unix.IFA_F_MANAGETEMPADDR, unix.IFA_F_STABLE_PRIVACY}
+	type av struct {
+		flags, valid uint32
+	}
+	var menu []av
+	for m := 0; m < 1<<len(bits); m++ {
+		var f uint32
+		for i, b := range bits {
+			if m&(1<<i) != 0 {
+				f |= b
+			}
+		}
+		menu = append(menu, av{f, math.MaxUint32}, av{f, 3600})
+	}
+	for _, a1 := range menu {
+		for _, a2 := range menu {
+			r.Case(fmt.Sprintf("pair %#x/%d then %#x/%d", a1.flags, a1.valid, a2.flags, a2.valid), a1 != a2)
+			pair := [2]av{a1, a2}
+			a := &addresser{execute: func(m rtnetlink.Message, family uint16, fl netlink.HeaderFlags) ([]rtnetlink.Message, error) {
+				var out []rtnetlink.Message
+				for i, x := range pair {
+					out = append(out, &rtnetlink.AddressMessage{
+						Family: unix.AF_INET6, PrefixLength: 64, Index: 2,
+						Attributes: &rtnetlink.AddressAttributes{
+							Address:   netip.MustParseAddr(fmt.Sprintf("2001:db8:%d::1", i+1)).AsSlice(),
+							Flags:     x.flags,
+							CacheInfo: rtnetlink.CacheInfo{Valid: x.valid},
+						},
+					})
+				}
+				return out, nil
+			}}
+			ips, err := a.AddressesByIndex(2)
+			if err != nil || len(ips) != 2 {
+				r.Violation("C13:flag-mapping:decode", fmt.Sprintf("pair %v: AddressesByIndex = %v, %v", pair, ips, err), nil)
+				continue
+			}
+			for i, ip := range ips {
+				x := pair[i]
+				got := []bool{ip.Temporary, ip.Tentative, ip.Deprecated, ip.ManageTemporaryAddresses, ip.StablePrivacy}
+				names := []string{"temporary", "tentative", "deprecated", "manage-temporary-addresses", "stable-privacy"}
+				props := [][]string{{"C13", "C14"}, {"C13", "C14"}, {"C14"}, {"C14"}, {"C14"}}
+				for k, b := range bits {
+					if got[k] != (x.flags&b != 0) {
+						for _, p := range props[k] {
+							r.Violation(p+":flag-mapping:"+names[k]+":leaks-between-addresses", fmt.Sprintf("reply with addresses %v: address %d has %s=%t, its own bit %#x is %t", pair, i, names[k], got[k], b, x.flags&b != 0), nil)
+						}
+					}
+				}
+				if ip.ValidForever != (x.valid == math.MaxUint32) {
+					r.Violation("C14:flag-mapping:valid-forever:leaks-between-addresses", fmt.Sprintf("reply with addresses %v: address %d has ValidForever=%t, its own valid lifetime is %d", pair, i, ip.ValidForever, x.valid), nil)
 				}
 			}
 		}
